@@ -58,6 +58,9 @@ func runOne(t *testing.T, c *Case, work, sched *choice.Source, out *wproto.Out, 
 	out.Count("sim_steps", int64(st.Steps))
 	out.Count("preemptions", int64(st.Preempt))
 	out.Count("lock_waits", int64(st.LockWaits))
+	if st.ProcsFaults > 0 {
+		out.Count("fault.gomaxprocs_changed_mid_call", int64(st.ProcsFaults))
+	}
 	out.Count("auto_yield_decisions", int64(st.AutoYields))
 	out.Count("atomic_site_decisions", int64(st.AtomicYields))
 	if AutoYield {
